@@ -6,7 +6,7 @@
    - the event log of a context changes only by operations addressed to it (C18). *)
 From Coq Require Import String.
 From Coq Require Import List Bool Arith Lia.
-From Asphalt Require Import Ctx.ResModel Ctx.ResProofs Ctx.ResInv.
+From Asphalt Require Import Ctx.ResModel Ctx.ResProofs Ctx.ResInv Gen.Gen_lookup.
 Import ListNotations.
 Open Scope string_scope.
 Open Scope list_scope.
@@ -54,7 +54,7 @@ Proof.
   intros I K.
   assert (Ix1 : forall y, res y = res x -> facs y = facs x -> cid y = cid x -> ctx_inv y)
     by (intros; eapply inv_irrelevant_fields; eauto).
-  unfold local_step.
+  unfold local_step; rewrite ?sga_eq.
   destruct (negb (in_states (life x) (allowed a))); [discriminate|].
   destruct a; simpl in K; try discriminate.
   - (* get_resource_nowait *)
@@ -343,9 +343,9 @@ Proof.
   intros I C F Z. destruct (cinv_started x f I C F Z) as (A1 & A2 & A3 & A4 & Er & Ef & Ep).
   set (x1 := fst (start_factory x f)) in *.
   assert (Ecalls : calls (store_generated x1 f v) = calls x1)
-    by (unfold store_generated; destruct (free_types x1 f); reflexivity).
+    by (unfold_sg; destruct (free_types x1 f); reflexivity).
   assert (Epend : pending (store_generated x1 f v) = pending x1)
-    by (unfold store_generated; destruct (free_types x1 f); reflexivity).
+    by (unfold_sg; destruct (free_types x1 f); reflexivity).
   constructor; rewrite ?facs_store_generated, ?Ecalls, ?Epend; auto.
   - intros fk E. destruct (key_eqb fk (fkey f)) eqn:K.
     + apply key_eqb_eq in K. subst fk. right. exists f. rewrite Ef. repeat split; auto.
@@ -388,9 +388,9 @@ Lemma cinv_after_end x tok f v k : ctx_inv x -> cinv x -> nfind tok (pending x) 
 Proof.
   intros I C P. set (x1 := del_pending x tok).
   assert (Ecalls : calls (store_generated x1 f v) = calls x)
-    by (unfold store_generated; destruct (free_types x1 f); reflexivity).
+    by (unfold_sg; destruct (free_types x1 f); reflexivity).
   assert (Epend : pending (store_generated x1 f v) = ndel tok (pending x))
-    by (unfold store_generated; destruct (free_types x1 f); reflexivity).
+    by (unfold_sg; destruct (free_types x1 f); reflexivity).
   destruct (ci_pend x C _ _ _ _ (nfind_In _ _ _ P)) as (F & Cn & Kd).
   constructor; rewrite ?facs_store_generated, ?Ecalls, ?Epend; cbn [facs del_pending set_pending x1].
   - apply (ci_full x C).
@@ -406,7 +406,7 @@ Qed.
 
 Lemma local_step_cinv a x : ctx_inv x -> cinv x -> cinv (fst (local_step a x)).
 Proof.
-  intros I C. unfold local_step.
+  intros I C. unfold local_step; rewrite ?sga_eq.
   destruct (negb (in_states (life x) (allowed a))); [exact C|].
   assert (FR : forall y, facs y = facs x -> calls y = calls x -> pending y = pending x -> res y = res x -> cinv y).
   { intros y A B D E. eapply cinv_frame; eauto. intros n t. now rewrite E. }
